@@ -189,6 +189,13 @@ theorem C12_gen_table_ok :
     0 < Gen.Velocity.dailyInterval ∧ 0 < Gen.Velocity.dailyBuckets ∧
     0 < Gen.Velocity.unlimitedInterval ∧ 0 < Gen.Velocity.unlimitedBuckets := by decide
 
+/-- … and the tracked interval of each policy setting is what its name says: the buckets of an
+    `Hourly` control span one hour, those of a `Daily` control one day (so the bound of `C12_spec` is
+    a bound over windows of 55 minutes resp. 23 hours, not over whatever the table happens to say). -/
+theorem C12_gen_table_span :
+    Gen.Velocity.hourlyInterval * Gen.Velocity.hourlyBuckets = 3600 ∧
+    Gen.Velocity.dailyInterval * Gen.Velocity.dailyBuckets = 86400 := by decide
+
 /-- `C12_main` instantiated at a policy spec (Hourly/Daily). -/
 theorem C12_spec (s : Spec) (hlim : s.triple.1 < U64.MAX)
     (reqs : List (Nat × Nat)) (hs : Sorted 0 reqs) (v : VC) (log : Log)
